@@ -77,6 +77,9 @@ def axes(t, pname):
                 raise Untyped("any/all without constant axis over a non-comparison")
             inf = dict(inf)
             inf['quant'] = 'exists' if f[2] == 'any' else 'forall'
+            if not -len(a) <= ax[1] < len(a):
+                inf['over'] = f'axis {ax[1]} (out of range)'
+                return a, inf
             inf['over'] = a[ax[1]]
             rest = tuple(x for j, x in enumerate(a) if j != (ax[1] % len(a)))
             return rest, inf
